@@ -386,6 +386,15 @@ func runReaderCase(idx int, rng *hlib.Rand, h hostile, thorough bool) *caseOut {
 		}
 	}
 
+	// the Reader layer above the ChunkReader, against the byte-level model
+	if dsize <= readerCaseCap && rng.Chance(2, 3) {
+		d := dsize
+		if d < 0 {
+			d = 0
+		}
+		runReaderLevel(rng, h, o, chunks, d)
+	}
+
 	o.dsize = dsize
 	o.count(fmt.Sprintf("chunks-seen:%s", bucket(len(chunks))))
 	o.count(fmt.Sprintf("max-reads-per-call:%s", bucket(maxReads)))
